@@ -1,12 +1,13 @@
-(** Proofs/NNSSyntaxF12.v — the repair proposed for finding F12
-    (Model/NNSSyntaxF12.v) makes checkIPv6 accept exactly [valid_AAAA]. *)
+(** Proofs/NNSSyntaxF12.v — lemmas for C18, part 4b (AAAA records): checkIPv6
+    of the working tree (with the repair 7bd3a2c of finding F12) accepts
+    exactly [valid_AAAA]; the function before the repair is [checkIPv6_old]. *)
 From Verif Require Import Base.Prelude Model.NNSSyntax Model.NNSSyntaxF12 Spec.Grammar
   Proofs.NNSSyntaxLib Proofs.NNSSyntaxIP6 Proofs.NNSSyntaxBool.
 From Coq Require Import ZifyBool ZifyNat ZifyN.
 Local Open Scope Z_scope.
 
 Lemma fixed_unfold s :
-  checkIPv6_fixed s =
+  checkIPv6 s =
   if (len s <? 2) || (39 <? len s) then Halt false
   else
     fragments <-! std_string_split s 58;
@@ -24,9 +25,9 @@ Lemma fixed_unfold s :
 Proof. reflexivity. Qed.
 
 (** What the old code accepts, the new code accepts. *)
-Lemma old_accept_fixed s : checkIPv6 s = Halt true -> checkIPv6_fixed s = Halt true.
+Lemma old_accept_fixed s : checkIPv6_old s = Halt true -> checkIPv6 s = Halt true.
 Proof.
-  rewrite checkIPv6_unfold, fixed_unfold.
+  rewrite checkIPv6_old_unfold, fixed_unfold.
   destruct ((len s <? 2) || (39 <? len s)); [discriminate|].
   destruct (std_string_split s 58) as [F|]; [|discriminate]. cbn [obind].
   destruct ((len F <? 3) || (8 <? len F)) eqn:E; [discriminate|].
@@ -36,9 +37,9 @@ Qed.
 
 (** With at most eight fragments nothing changed. *)
 Lemma fixed_accept_old s :
-  len (strings_split 58 s) <> 9 -> checkIPv6_fixed s = Halt true -> checkIPv6 s = Halt true.
+  len (strings_split 58 s) <> 9 -> checkIPv6 s = Halt true -> checkIPv6_old s = Halt true.
 Proof.
-  intros H9. rewrite checkIPv6_unfold, fixed_unfold.
+  intros H9. rewrite checkIPv6_old_unfold, fixed_unfold.
   destruct ((len s <? 2) || (39 <? len s)); [discriminate|].
   destruct (std_string_split s 58) as [F|] eqn:Es; [|discriminate]. cbn [obind].
   apply std_split_inv in Es. subst F. set (F := strings_split 58 s) in *.
@@ -133,3 +134,85 @@ Proof.
       * rewrite HlF, len_app. llia.
       * exists t, [[]]. split; [reflexivity|discriminate].
 Qed.
+
+Lemma list_len7 {A} (l : list A) : length l = 7%nat ->
+  exists a b c d e f g, l = [a; b; c; d; e; f; g].
+Proof.
+  destruct l as [|a [|b [|c [|d [|e [|f [|g [|]]]]]]]]; try discriminate. eauto 10.
+Qed.
+
+(** Seven groups and "::" are now accepted. *)
+Lemma seven_accept L :
+  length L = 7%nat -> Forall hexgroup L -> global_unicast6 (map hexval L ++ repeat 0 1) ->
+  checkIPv6 (join 58 L ++ [58; 58]%N) = Halt true.
+Proof.
+  intros H7 GL Hg. rewrite fixed_unfold.
+  assert (HLne : L <> []) by (destruct L; discriminate).
+  pose proof (join_len_lt L HLne GL) as HubL.
+  set (s := join 58 L ++ [58; 58]%N).
+  assert (Hls : (2 <= length s <= 39)%nat).
+  { subst s. rewrite !app_length. cbn [length]. lia. }
+  assert (Hasc : Forall (fun c => (c < 128)%N) s).
+  { subst s. apply Forall_app. split; [apply join_ascii, GL|repeat constructor; lia]. }
+  replace ((len s <? 2) || (39 <? len s)) with false by (unfold len; lia).
+  rewrite std_split_ok by (try assumption; unfold len; lia). cbn [obind].
+  assert (HF : strings_split 58 s = L ++ [[]; []]).
+  { subst s. pose proof (split_compressed L [] GL ltac:(constructor)) as H.
+    cbn [join] in H. rewrite app_nil_r in H. rewrite H.
+    destruct L; [discriminate|reflexivity]. }
+  rewrite HF.
+  assert (H9 : len (L ++ [[]; []]) = 9) by (rewrite len_app; llia).
+  rewrite H9. cbn [Z.ltb Z.compare Pos.compare Pos.compare_cont orb Z.eqb Pos.eqb].
+  assert (Hok : nine_ok (L ++ [[]; []]) = Halt true).
+  { destruct (list_len7 L H7) as (a & b & c & d & e & f & g & ->).
+    unfold nine_ok, index. cbn [app Z.ltb Z.compare].
+    change (Z.to_nat 0) with 0%nat. change (Z.to_nat 1) with 1%nat.
+    change (Z.to_nat 7) with 7%nat. change (Z.to_nat 8) with 8%nat. cbn [nth_error obind].
+    change (len [] =? 0) with true. cbn [negb orb]. rewrite andb_false_r. reflexivity. }
+  rewrite Hok. cbn [obind negb].
+  rewrite run_right by (assumption || lia). cbn [obind negb]. rewrite andb_false_r.
+  apply gcheck_len8; [|rewrite H7; exact Hg].
+  unfold vals. rewrite app_length, map_length, repeat_length. lia.
+Qed.
+
+(** The repaired checkIPv6_old accepts exactly the RFC 4291 text (forms 1 and 2)
+    of global unicast addresses. *)
+Theorem ipv6_equiv s : checkIPv6 s = Halt true <-> valid_AAAA s.
+Proof.
+  split.
+  - intros H. destruct (Z.eq_dec (len (strings_split 58 s)) 9) as [H9|H9].
+    + rewrite fixed_unfold in H.
+      destruct ((len s <? 2) || (39 <? len s)); [discriminate|].
+      destruct (std_string_split s 58) as [F|] eqn:Es; [|discriminate]. cbn [obind] in H.
+      apply std_split_inv in Es. rewrite <- Es in H9.
+      destruct ((len F <? 3) || (9 <? len F)); [discriminate|].
+      replace (len F =? 9) with true in H by lia.
+      destruct (nine_ok F) as [[|]|] eqn:Eok; try discriminate. cbn [obind negb] in H.
+      destruct (run F) as [[[he nums]|]|] eqn:Erun; try discriminate. cbn [obind] in H.
+      destruct ((len F <? 8) && negb he); [discriminate|].
+      destruct (nine_fragments F he nums H9 Eok Erun H) as (L & H7 & GL & HF & -> & ->).
+      exists (map hexval L ++ repeat 0 1). split.
+      * pose proof (T6_compressed L [] GL ltac:(constructor) ltac:(cbn [length]; lia)) as Ht.
+        cbn [join map length] in Ht. rewrite !app_nil_r, Nat.sub_0_r, H7 in Ht.
+        rewrite <- (join_split 58 s), <- Es, HF, join_right by (destruct L; discriminate). exact Ht.
+      * apply gcheck_len8; [|exact H].
+        unfold vals. rewrite app_length, map_length, repeat_length. lia.
+    + apply ipv6_sound, fixed_accept_old; assumption.
+  - intros (g & Ht & Hg).
+    destruct (ipv6_complete_or s g Ht Hg) as [H|(L & H7 & GL & -> & ->)].
+    + apply old_accept_fixed, H.
+    + apply seven_accept; assumption.
+Qed.
+
+(** The repair loses nothing and adds exactly the F12 strings. *)
+Corollary ipv6_now_vs_old s :
+  checkIPv6 s = Halt true <->
+  checkIPv6_old s = Halt true \/ (f12_shape s /\ valid_AAAA s).
+Proof.
+  rewrite ipv6_equiv, ipv6_old_equiv. split.
+  - intros Hv. destruct (f12_shapeb s) eqn:E.
+    + right. split; [apply f12_shapeb_spec, E|assumption].
+    + left. split; [assumption|]. intros H. apply f12_shapeb_spec in H. congruence.
+  - intros [[Hv _]|[_ Hv]]; assumption.
+Qed.
+Print Assumptions ipv6_equiv.
